@@ -105,6 +105,66 @@ Auth(P) ==
         ok     |-> fp # 0 /\ P.authz.policies[fp].kind = "allow" /\ failed = {}]
 
 (***************************************************************************)
+(* Linearised evaluation (C11).  The engine visits the bindings of a query *)
+(* in an unspecified order (hash-based stores).  `check if`, `reject if`   *)
+(* and policies stop at the first binding whose guards do not evaluate to  *)
+(* false: a match or an error; `check all` stops at the first binding that *)
+(* is false or an error.  AltResults is the SET of results an alternative  *)
+(* can produce over all visiting orders; evaluation is deterministic iff   *)
+(* every such set is a singleton.                                          *)
+(***************************************************************************)
+AltResults(P, W, q, owner, kind) ==
+    LET O == Outcomes(q, W, ElemTrust(P, q.scope, owner)) IN
+    IF kind = "all"
+    THEN IF O = {} THEN {"F"}
+         ELSE IF O = {"T"} THEN {"T"}
+         ELSE (IF "F" \in O THEN {"F"} ELSE {}) \cup (IF "E" \in O THEN {"E"} ELSE {})
+    ELSE (IF "T" \in O THEN {"T"} ELSE {}) \cup (IF "E" \in O THEN {"E"} ELSE {})
+         \cup (IF O \cap {"T", "E"} = {} THEN {"F"} ELSE {})
+
+\* outcomes of one check: subset of {"pass", "fail", "error"}
+RECURSIVE CheckOutcomesFrom(_, _, _, _, _)
+CheckOutcomesFrom(P, W, c, owner, i) ==
+    IF i > Len(c.queries) THEN {IF c.kind = "reject" THEN "pass" ELSE "fail"}
+    ELSE LET A == AltResults(P, W, c.queries[i], owner, c.kind) IN
+         (IF "E" \in A THEN {"error"} ELSE {})
+         \cup (IF "T" \in A THEN {IF c.kind = "reject" THEN "fail" ELSE "pass"} ELSE {})
+         \cup (IF "F" \in A THEN CheckOutcomesFrom(P, W, c, owner, i + 1) ELSE {})
+
+CheckOutcomes(P, W, c, owner) == CheckOutcomesFrom(P, W, c, owner, 1)
+
+\* outcomes of the policy scan: "error", "none" or the 1-based index as a string-free record
+RECURSIVE PolicyOutcomesFrom(_, _, _, _)
+PolicyOutcomesFrom(P, W, i, j) ==
+    IF i > Len(P.authz.policies) THEN {[k |-> "none", i |-> 0]}
+    ELSE IF j > Len(P.authz.policies[i].queries) THEN PolicyOutcomesFrom(P, W, i + 1, 1)
+    ELSE LET A == AltResults(P, W, P.authz.policies[i].queries[j], AZ, "one") IN
+         (IF "E" \in A THEN {[k |-> "error", i |-> 0]} ELSE {})
+         \cup (IF "T" \in A THEN {[k |-> P.authz.policies[i].kind, i |-> i - 1]} ELSE {})
+         \cup (IF "F" \in A THEN PolicyOutcomesFrom(P, W, i, j + 1) ELSE {})
+
+AllChecks(P) ==
+    {[c |-> P.authz.checks[i], owner |-> AZ] : i \in 1..Len(P.authz.checks)}
+    \cup UNION {{[c |-> Blk(P, id).checks[i], owner |-> id] : i \in 1..Len(Blk(P, id).checks)} : id \in BlockIds(P)}
+
+\* can the fixpoint computation itself fail on some binding of some rule ?
+RunErrors(P) == \E r \in Rules(P) : RuleErrors(r, World(P))
+
+\* the set of results authorize() can return over all visiting orders: "error" and/or the
+\* (unique) error-free result
+AuthOutcomes(P) ==
+    LET W == World(P)
+        chk == AllChecks(P)
+        pol == PolicyOutcomesFrom(P, W, 1, 1)
+        canError == RunErrors(P) \/ (\E x \in chk : "error" \in CheckOutcomes(P, W, x.c, x.owner))
+                    \/ [k |-> "error", i |-> 0] \in pol
+        canFinish == ~RunErrors(P) /\ (\A x \in chk : CheckOutcomes(P, W, x.c, x.owner) # {"error"})
+                     /\ pol # {[k |-> "error", i |-> 0]}
+    IN (IF canError THEN {"error"} ELSE {}) \cup (IF canFinish THEN {"result"} ELSE {})
+
+Deterministic(P) == Cardinality(AuthOutcomes(P)) = 1
+
+(***************************************************************************)
 (* Queries issued on an authorizer.                                        *)
 (***************************************************************************)
 \* Authorizer::query : authority + authorizer unless the rule carries a scope
